@@ -14,6 +14,7 @@ func init() {
 			Harness{Fn: "ZZC16Gen", Quick: p("GD", 2, "GL0", 1, "GL1", 2, "GL2", 1), Thorough: p("GD", 2, "GL0", 2, "GL1", 2, "GL2", 1), ThoroughBudget: 25 * time.Minute, Expect: []string{"compared", "witness:end"}, MaxInstr: 5_000_000},
 		)},
 		Assumptions: []string{
+			"ZZC16Gen: generated programs over the supported subset (assignments to a global accumulator, block-local declarations before and after nested blocks read back as first and later operands, if/else, while, numeric and array ranges, break), depth GD, block lengths GL0..GL2; 42 templates wrap every untranslatable construct into every block kind",
 			"program family: 37 templates over the whole language (arithmetic, comparison, strings, arrays, maps, if/while/for in all four range forms, break, shadowing, nested locals, composite equality, and 7 constructs without a translation); the two leading declarations carry unconstrained float64 values (templates that index or iterate restrict them to small integers and halves)",
 			"evaluator globals are observed through `print <global>`; VM globals through the compiler's symbol table",
 			"math.Mod is an uninterpreted function on both sides",
@@ -34,6 +35,7 @@ func init() {
 			Harness{Fn: "ZZC17Gen", Quick: p("GD", 2, "GL0", 1, "GL1", 2, "GL2", 1), Thorough: p("GD", 2, "GL0", 2, "GL1", 2, "GL2", 1), ThoroughBudget: 25 * time.Minute, Expect: []string{"emitted-ran", "witness:end"}, MaxInstr: 5_000_000},
 		)},
 		Assumptions: []string{
+			"ZZC17Gen: the verifier and the VM on the generated programs of ZZC16Gen",
 			"symbol-table step: pre-state = chain of 1..D tables with symbolic counters and symbolic distinct slots inside [base,index) (the representation invariant; base = parent's counter for nested local scopes), one Define / Push+Define / Pop with a symbolic name",
 			"verifier: abstract stack heights per opcode as documented in vm.go; the loop-variable push of OpStepRange/OpIterRange is attributed to the continuing edge of the following OpJumpOnFalse",
 		},
